@@ -6,6 +6,7 @@ import (
 	"errors"
 	"fmt"
 	"hash/crc32"
+	"io"
 	"os"
 	"path/filepath"
 	"sort"
@@ -82,11 +83,69 @@ const initialID = "init"
 type hop struct {
 	Kind string `json:"kind"` // read | write | transform | transform-err
 	Len  int    `json:"len"`  // length of the value written (write/transform)
+	// Src (write): how the content reader hands out its bytes - all behaviours the io.Reader contract allows:
+	// "" bytes.Reader (has WriteTo); "plain" everything asked for, then (0, EOF); "data-eof" the last bytes come together
+	// with io.EOF (for a short value: the whole value in the first call); "chunks" 1-4096 bytes per call;
+	// "zero-reads" (0, nil) now and then
+	Src string `json:"src,omitempty"`
+	// Hold (transform, transform-err): milliseconds the callback takes, so that other callers queue up on the lock
+	Hold int `json:"hold,omitempty"`
 }
+
+// noValue is what a Read or a Transform callback observes when the file does not exist or is empty: legal only as
+// long as no Write or Transform has completed (cases that start without the file: Init < 0).
+const noValue = "NOVALUE"
+
+var absentStart bool // this worker's case starts without the file
+
+type srcReader struct {
+	data []byte
+	mode string
+	off  int
+	n    int
+}
+
+func newSrc(data []byte, mode string) io.Reader {
+	if mode == "" {
+		return bytes.NewReader(data)
+	}
+	return &srcReader{data: data, mode: mode}
+}
+
+func (r *srcReader) Read(p []byte) (int, error) {
+	r.n++
+	if r.off >= len(r.data) {
+		return 0, io.EOF
+	}
+	if len(p) == 0 {
+		return 0, nil
+	}
+	max := len(p)
+	switch r.mode {
+	case "chunks":
+		if c := 1 + (r.n*2654435761>>7)%4096; c < max {
+			max = c
+		}
+	case "zero-reads":
+		if r.n%3 == 1 {
+			return 0, nil
+		}
+		if max > 1000 {
+			max = 1000
+		}
+	}
+	n := copy(p[:max], r.data[r.off:])
+	r.off += n
+	if r.mode == "data-eof" && r.off >= len(r.data) {
+		return n, io.EOF
+	}
+	return n, nil
+}
+
 type linCase struct {
 	Procs int     `json:"procs"`
 	Progs [][]hop `json:"progs"` // per goroutine; goroutine g lives in process g % procs
-	Init  int     `json:"init"`  // length of the initial value
+	Init  int     `json:"init"`  // length of the initial value; < 0: the file does not exist at the start
 }
 
 type rec1 struct {
@@ -117,7 +176,11 @@ func runActor(path string, actor int, prog []hop) []rec1 {
 		case "read":
 			b, err := lockedfile.Read(path)
 			r.Return = rig.MonoNanos()
-			if err != nil {
+			if err != nil && absentStart && os.IsNotExist(err) {
+				r.Out = noValue
+			} else if err == nil && absentStart && len(b) == 0 {
+				r.Out = noValue
+			} else if err != nil {
 				r.Err = err.Error()
 			} else if v := parse(b); v != "" {
 				r.Out = v
@@ -126,7 +189,7 @@ func runActor(path string, actor int, prog []hop) []rec1 {
 			}
 		case "write":
 			r.In = id
-			err := lockedfile.Write(path, bytes.NewReader(value(id, o.Len)), 0o666)
+			err := lockedfile.Write(path, newSrc(value(id, o.Len), o.Src), 0o666)
 			r.Return = rig.MonoNanos()
 			if err != nil {
 				r.Err = err.Error()
@@ -136,8 +199,13 @@ func runActor(path string, actor int, prog []hop) []rec1 {
 			err := lockedfile.Transform(path, func(old []byte) ([]byte, error) {
 				if v := parse(old); v != "" {
 					r.Out = v
+				} else if absentStart && len(old) == 0 {
+					r.Out = noValue
 				} else {
 					r.Out = describeCorrupt(old)
+				}
+				if o.Hold > 0 && o.Hold <= 20 {
+					time.Sleep(time.Duration(o.Hold) * time.Millisecond)
 				}
 				if o.Kind == "transform-err" {
 					return nil, errors.New("callback refuses")
@@ -157,6 +225,7 @@ func runActor(path string, actor int, prog []hop) []rec1 {
 func workerMain() {
 	var c linCase
 	json.Unmarshal([]byte(os.Getenv("VERIF_C07_CASE")), &c)
+	absentStart = c.Init < 0
 	d := os.Getenv("VERIF_C07_DIR")
 	var me int
 	fmt.Sscan(os.Getenv("VERIF_C07_PROC"), &me)
@@ -194,8 +263,10 @@ type regOut struct {
 	id string // observed id (read/transform)
 }
 
+var modelInit = initialID
+
 var registerModel = porcupine.Model{
-	Init: func() interface{} { return initialID },
+	Init: func() interface{} { return modelInit },
 	Step: func(state, input, output interface{}) (bool, interface{}) {
 		in, out := input.(regIn), output.(regOut)
 		switch in.kind {
@@ -217,8 +288,13 @@ var registerModel = porcupine.Model{
 }
 
 // judge decides a recorded history (deterministic; also used by --replay).
-func judge(h []rec1) *vt.Fail {
+func judge(h []rec1, absent bool) *vt.Fail {
 	written := map[string]bool{initialID: true}
+	modelInit = initialID
+	if absent {
+		written = map[string]bool{noValue: true}
+		modelInit = noValue
+	}
 	for _, r := range h {
 		if r.In != "" && r.Kind != "transform-err" {
 			written[r.In] = true
@@ -271,7 +347,9 @@ func execLin(c linCase) ([]rec1, *vt.Fail) {
 	d := filepath.Join(cachekit.Scratch(), fmt.Sprintf("c07l-%d-%d", os.Getpid(), atomic.AddInt64(&seq, 1)))
 	os.MkdirAll(d, 0o777)
 	defer os.RemoveAll(d)
-	os.WriteFile(filepath.Join(d, "file"), value(initialID, c.Init), 0o666)
+	if c.Init >= 0 {
+		os.WriteFile(filepath.Join(d, "file"), value(initialID, c.Init), 0o666)
+	}
 	cj, _ := json.Marshal(c)
 	var ws []rig.Worker
 	for p := 0; p < c.Procs; p++ {
@@ -299,7 +377,15 @@ func execLin(c linCase) ([]rec1, *vt.Fail) {
 	}
 	// final state must be a single complete value
 	fb, _ := os.ReadFile(filepath.Join(d, "file"))
-	if parse(fb) == "" {
+	stores := c.Init >= 0
+	for _, prog := range c.Progs {
+		for _, o := range prog {
+			if o.Kind == "write" || o.Kind == "transform" {
+				stores = true
+			}
+		}
+	}
+	if parse(fb) == "" && stores {
 		return h, vt.Failf("torn-or-empty-contents", "after all actors finished the file holds %s", describeCorrupt(fb))
 	}
 	return h, nil
@@ -311,7 +397,7 @@ func checkLin(c linReplay) *vt.Fail {
 	}
 	if len(c.History) > 0 {
 		// replay: first re-judge the recorded history (deterministic), then try to reproduce
-		if f := judge(c.History); f != nil {
+		if f := judge(c.History, c.Init < 0); f != nil {
 			f.Msg = "(recorded history) " + f.Msg
 			return f
 		}
@@ -333,7 +419,7 @@ func checkLin(c linReplay) *vt.Fail {
 			}
 		}
 	}
-	if f := judge(h); f != nil {
+	if f := judge(h, c.Init < 0); f != nil {
 		lastHistory = h
 		return f
 	}
@@ -343,7 +429,21 @@ func checkLin(c linReplay) *vt.Fail {
 var lastHistory []rec1
 
 func genLin(t *rapid.T) linReplay {
-	c := linCase{Procs: rapid.IntRange(1, 3).Draw(t, "procs"), Init: rapid.SampledFrom([]int{30, 500, 70000}).Draw(t, "init")}
+	c := linCase{Procs: rapid.IntRange(1, 3).Draw(t, "procs"), Init: rapid.SampledFrom([]int{30, 500, 70000, -1}).Draw(t, "init")}
+	if rapid.IntRange(0, 5).Draw(t, "firstuse") == 3 {
+		// the file does not exist yet: one caller's Transform fails (slowly) while others write, transform and read
+		c.Init = -1
+		c.Progs = append(c.Progs, []hop{{Kind: "transform-err", Hold: rapid.IntRange(1, 4).Draw(t, "hold0")}, {Kind: "read"}})
+		for g, n := 0, rapid.IntRange(1, 4).Draw(t, "others"); g < n; g++ {
+			first := hop{Kind: rapid.SampledFrom([]string{"write", "transform", "write"}).Draw(t, "fk"), Len: rapid.SampledFrom([]int{20, 200, 5000}).Draw(t, "flen")}
+			prog := []hop{first}
+			for k, m := 0, rapid.IntRange(0, 3).Draw(t, "more"); k < m; k++ {
+				prog = append(prog, hop{Kind: rapid.SampledFrom([]string{"read", "transform-err", "read", "transform"}).Draw(t, "mk"), Len: 30, Hold: rapid.IntRange(0, 2).Draw(t, "mh")})
+			}
+			c.Progs = append(c.Progs, prog)
+		}
+		return linReplay{linCase: c}
+	}
 	ng := c.Procs * rapid.IntRange(1, 4).Draw(t, "gpp")
 	if ng < 2 {
 		ng = 2
@@ -355,6 +455,12 @@ func genLin(t *rapid.T) linReplay {
 			budget--
 			o := hop{Kind: rapid.SampledFrom([]string{"read", "read", "write", "transform", "transform", "transform-err"}).Draw(t, "kind")}
 			o.Len = rapid.SampledFrom([]int{20, 30, 200, 5000, 70000, 260000}).Draw(t, "len")
+			if (o.Kind == "transform" || o.Kind == "transform-err") && rapid.IntRange(0, 5).Draw(t, "holds") == 2 {
+				o.Hold = rapid.IntRange(1, 3).Draw(t, "hold")
+			}
+			if o.Kind == "write" {
+				o.Src = rapid.SampledFrom([]string{"", "data-eof", "plain", "chunks", "zero-reads", "data-eof"}).Draw(t, "src")
+			}
 			prog = append(prog, o)
 		}
 		if len(prog) > 0 {
@@ -369,7 +475,11 @@ func TestLinearizability(t *testing.T) {
 		f := checkLin(c)
 		return f
 	}, Meta: func(c linReplay) vt.Meta {
-		return vt.Meta{NonTrivial: lastOverlap, Classes: []string{fmt.Sprintf("procs=%d", c.Procs)}}
+		cl := []string{fmt.Sprintf("procs=%d", c.Procs)}
+		if c.Init < 0 {
+			cl = append(cl, "file-missing-at-start")
+		}
+		return vt.Meta{NonTrivial: lastOverlap, Classes: cl}
 	}, Finalize: func(c linReplay) linReplay {
 		c.History = lastHistory
 		return c
